@@ -127,7 +127,8 @@ def main():
                 # tension (damage grows), then compression twice: same irreversible damage, other displacement
                 prefix = ["solve+", "save", "solve-", "save", "solve-", "save", "set1", "set2", "set1", "set0", "set2"]
             elif kind == "inelastic":
-                prefix = ["solve+", "save", "solve++", "save", "set0", "save", "set1", "save", "set2"]
+                # iteration 0 is saved before the first solve (virgin state, no internal variable yet), the next two are past yield
+                prefix = ["save", "solve+", "save", "solve++", "save", "set0", "set2", "set1", "save", "set0", "save", "set2"]
             else:
                 prefix = ["solve", "save"]
             plan = prefix + [rng.choice(["solve", "solve", "save", "save", "folder", "set", "query", "result", "mesh"]) for _ in range(nops)] + ["save", "set", "query"]
@@ -354,4 +355,6 @@ def main():
 
 
 if __name__ == "__main__":
-    main()
+    from tools.harness._common import run
+
+    run(main)
